@@ -121,7 +121,8 @@ impl FromStr for Qtype {
     type Err = &'static str;
 
     fn from_str(text: &str) -> Result<Self, Self::Err> {
-        match Caseless(text) {
+        let upper = text.to_ascii_uppercase();
+        match Caseless(&upper) {
             Caseless("IXFR") => Ok(Self::IXFR),
             Caseless("AXFR") => Ok(Self::AXFR),
             Caseless("MAILB") => Ok(Self::MAILB),
@@ -198,7 +199,8 @@ impl FromStr for Qclass {
     type Err = &'static str;
 
     fn from_str(text: &str) -> Result<Self, Self::Err> {
-        match Caseless(text) {
+        let upper = text.to_ascii_uppercase();
+        match Caseless(&upper) {
             Caseless("NONE") => Ok(Self::NONE),
             Caseless("ANY") => Ok(Self::ANY),
             Caseless("*") => Ok(Self::ANY),
